@@ -150,7 +150,7 @@ func runC10RampPer(c *ctx, unit, per int, s, e, d int, extra int) (tr c10trace) 
 }
 
 // runC10CLI: the profile a command line MEANS is the profile that run evaluates - also when it is not the first run on
-// its F1 instance and relies on a flag's default where the earlier run set the flag. Flat profiles (the measured
+// its F1 instance and relies on a flag's default where the earlier run set the flag. (Nearly) flat profiles (the measured
 // offsets are wall-clock): the evaluations are captured at the trigger's own evaluation point (hook iw.eval).
 func runC10CLI(kind string) (tr c10trace) {
 	tr = c10trace{Kind: kind, Unit: "ms", Ev: [][2]int{}, Dur: -2} // (the total duration is not visible from outside)
@@ -188,9 +188,9 @@ func runC10CLI(kind string) (tr c10trace) {
 		tr.Stages = [][2]int{{0, 1}, {10000, 1}} // the documented default "0s:1, 10s:1", one evaluation per second
 		tr.Arg = "second run with the default --stages and --iterationFrequency"
 	} else {
-		a1 = []string{"run", "ramp", "scn", "-s", "10/100ms", "-e", "10/100ms", "--ramp-duration", "400ms", "--distribution", "none", "--max-duration", "450ms", "-c", "8"}
-		a2 = []string{"run", "ramp", "scn", "-s", "7/100ms", "-e", "7/100ms", "--distribution", "none", "--max-duration", "1300ms", "-c", "8"}
-		tr.S, tr.E, tr.D = 7, 7, 1000 // the documented default --ramp-duration 1s
+		a1 = []string{"run", "ramp", "scn", "-s", "10/100ms", "-e", "11/100ms", "--ramp-duration", "400ms", "--distribution", "none", "--max-duration", "450ms", "-c", "8"}
+		a2 = []string{"run", "ramp", "scn", "-s", "7/100ms", "-e", "8/100ms", "--distribution", "none", "--max-duration", "1300ms", "-c", "8"}
+		tr.S, tr.E, tr.D = 7, 8, 1000 // the documented default --ramp-duration 1s (7 -> 8: any reading of the clock is within 1 of the exact value)
 		boundary = 1000
 		tr.Arg = "second run with the default --ramp-duration"
 	}
@@ -203,10 +203,11 @@ func runC10CLI(kind string) (tr c10trace) {
 	}
 	mu.Lock()
 	recording = false
-	// evaluations within 40 ms of the end of the ramp can fall on either side of it by the wall clock: left out
+	// evaluations near the end of the ramp can fall on either side of it by the wall clock (the ramp's own clock starts
+	// when the trigger is built, some time before the first evaluation - much earlier on a loaded machine): left out
 	kept := tr.Ev[:0]
 	for _, e := range tr.Ev {
-		if boundary < 0 || e[0] < boundary-40 || e[0] > boundary+40 {
+		if boundary < 0 || e[0] < boundary-300 || e[0] > boundary+60 {
 			kept = append(kept, e)
 		}
 	}
@@ -356,7 +357,7 @@ func init() {
 			if tr := runC10CLI(kind); len(tr.Ev) >= 2 || tr.Panicked {
 				w.write(tr)
 			} else {
-				fmt.Println("c10: command-line row", kind, "inconclusive (fewer than two evaluations seen)")
+				fmt.Println("c10: command-line row", kind, "inconclusive (fewer than two evaluations seen)", tr.Err, len(tr.Ev))
 			}
 		}
 		fmt.Println("c10 traces:", w.n)
